@@ -549,3 +549,30 @@ def correspond(ctx, name, cases, hcmd, dcmd, classify, env=None, max_report=4, k
                   "cases_in_group": len(lst)}
         ctx.violation(key, replay, found_input=found, what=what)
     return len(failing)
+
+
+def oracle_only(ctx, name, cases, hcmd, classify, env=None, max_report=4, timeout=600):
+    """Run the implementation alone (no model available) and report oracle failures / crashes as
+    concrete failing inputs.  Used after a proof obligation or the driver build broke."""
+    e = dict(os.environ); e.setdefault("ASAN_OPTIONS", "detect_leaks=0"); e.update(env or {})
+    seen, found = set(), 0
+    for c in cases:
+        p = subprocess.run(hcmd, input="\n".join(c) + "\n", capture_output=True, text=True, errors="replace", env=e, timeout=timeout)
+        r = CaseResult(); r.impl = p.stdout.splitlines(); r.stderr = p.stderr[-2000:]
+        r.crash = p.returncode != 0; r.oracle = [l for l in r.impl if "!oracle" in l]
+        ctx.count("oracle_only_cases")
+        if not (r.crash or r.oracle):
+            continue
+        key, what = classify(c, r)
+        if key in seen:
+            continue
+        seen.add(key); found += 1
+        ctx.violation(key, {"harness_cmd": hcmd, "ops": c, "impl_output": r.impl[-10:], "oracle": r.oracle[:5],
+                            "crash": r.crash, "stderr_tail": r.stderr}, found_input=True, what=what)
+        if len(seen) >= max_report:
+            break
+    if found:
+        for b in ctx.breaks:
+            b["resolved"] = True
+    ctx.log(f"{name}: {found} failing inputs found by the oracle alone")
+    return found
